@@ -234,7 +234,7 @@ func (b *builder) randomMsg() script.CMsg {
 	return script.CMsg{K: "H"}
 }
 
-var batchKinds = []string{"copy-in-batch", "clean", "clean", "parse-error", "bind-unknown", "describeS-unknown", "describeP-unknown", "execute-unknown", "execute-fails-before-rows", "execute-fails-after-rows", "execute-panics", "random", "random", "simple-query", "unknown-type", "close-then-use"}
+var batchKinds = []string{"copy-in-batch", "clean", "clean", "parse-error", "bind-unknown", "describeS-unknown", "describeP-unknown", "execute-unknown", "execute-fails-before-rows", "execute-fails-after-rows", "execute-panics", "failing-query-in-open-batch", "random", "random", "simple-query", "unknown-type", "close-then-use"}
 
 func genCase(t *rapid.T) Case {
 	c := Case{}
@@ -303,6 +303,15 @@ func genCase(t *rapid.T) Case {
 			b.pipeline(k[3], "E")
 		case "execute-panics":
 			b.pipeline(k[7], "E")
+		case "failing-query-in-open-batch":
+			// a simple Query is its own cycle wherever it stands: failing after Parse / Bind without a Sync
+			// in between, it is still answered ErrorResponse + ReadyForQuery and nothing is discarded
+			_, p := b.pipeline(k[0], rapid.SampledFrom([]string{"P", "B"}).Draw(t, "open-up-to"))
+			b.emit(script.CMsg{K: "Q", Query: rapid.SampledFrom([]string{k[2], k[3], k[4]}).Draw(t, "failing-query")})
+			if b.md.HasPortal(p) {
+				b.emit(script.CMsg{K: "E", Portal: p})
+			}
+			b.emit(script.CMsg{K: "Q", Query: k[0]})
 		case "simple-query":
 			b.emit(script.CMsg{K: "Q", Query: rapid.SampledFrom(k[:6]).Draw(t, "query")})
 		case "unknown-type":
